@@ -198,6 +198,9 @@ func clsName(err error) string {
 }
 
 func runClassify(in input) lib.Case {
+	if wedgedKinds["classify"] >= 3 {
+		return lib.Case{Discard: true}
+	}
 	var raw error
 	feat := in.Feat
 	if in.Err == "synthetic" {
@@ -222,6 +225,13 @@ func runClassify(in input) lib.Case {
 	c.push(item{err: xerrors.Errorf("receiving: %w", xerrors.Errorf("buffer read: %w", cls))})
 	waitUntil(func() bool { return !n.inTable(c) || c.idle() }, opDeadline)
 	left := !n.inTable(c)
+	if isWedged(n.S) {
+		// the receive loop sits inside a handler holding the router's mutex
+		n.abandoned = true
+		wedgedKinds["classify"]++
+		return lib.Case{Coq: "CCluster 1 1 false true true true", Class: "classify:" + in.Err + "+blocked", Nontrivial: true,
+			Obs: "after the error the router did not answer any more (table query blocked)"}
+	}
 	n.mu.Lock()
 	calls := len(n.calls)
 	n.mu.Unlock()
